@@ -239,12 +239,16 @@ static void op_dissect(void) {
 	text_decode(fld[5], in);
 	T(QueryList) *l = NULL;
 	int count = -777, rc;
+	/* mm: bit 0 = the manager-taking entry point, bit 1 = the optional itemCount output is NULL */
+	int *cp = (mm & 2) ? NULL : &count;
+	mm &= 1;
 	mm_reset(0);
-	if (mm) rc = F(DissectQueryMallocExMm)(&l, &count, in, in + n, ex ? pts : 1, ex ? (UriBreakConversion)bc : URI_BR_DONT_TOUCH, &counting_mm);
-	else rc = ex ? F(DissectQueryMallocEx)(&l, &count, in, in + n, pts, (UriBreakConversion)bc)
-	             : F(DissectQueryMalloc)(&l, &count, in, in + n);
+	if (mm) rc = F(DissectQueryMallocExMm)(&l, cp, in, in + n, ex ? pts : 1, ex ? (UriBreakConversion)bc : URI_BR_DONT_TOUCH, &counting_mm);
+	else rc = ex ? F(DissectQueryMallocEx)(&l, cp, in, in + n, pts, (UriBreakConversion)bc)
+	             : F(DissectQueryMalloc)(&l, cp, in, in + n);
 	int len = 0;
 	for (T(QueryList) *q = l; q; q = q->next) len++;
+	if (!cp && rc == 0) count = len;      /* nothing to report: the list itself is judged */
 	printf("dissect %d %d %d", rc, count, rc == 0 ? len : 0);
 	if (rc == 0) for (T(QueryList) *q = l; q; q = q->next) {
 		putchar(' '); put_ztext(q->key); putchar(' '); put_ztext(q->value);
